@@ -83,7 +83,20 @@ impl Oneshot {
 }
 #[verifier::external_body] pub fn select_nondet() -> (r: bool) { unimplemented!() }
 #[verifier::external_body] pub fn select_arm() -> (r: u8) { unimplemented!() }
-pub struct OutboundRequestLayer;
+// the layer stack Builder::start built for outgoing requests (unit timeout proves what it contains)
+pub struct OutboundRequestLayer { pub id: u64 }
+// `tower::service_fn(move |request| { let peer = peer.clone(); async move { peer.do_rpc(request).await } }).boxed()`: the service whose call is do_rpc of that peer handle
+pub struct DoRpcService { pub peer: Peer }
+// what `layer.layer(inner)` builds and what calling it yields: the request goes through `layer` and, if the layer lets it through, to `inner`
+pub struct LayeredService { pub layer: OutboundRequestLayer, pub inner: DoRpcService }
+pub struct RpcFuture { pub layer: OutboundRequestLayer, pub inner: DoRpcService, pub req: Request<Bytes> }
+impl OutboundRequestLayer {
+    #[verifier::external_body] pub fn layer(&self, inner: DoRpcService) -> (r: LayeredService) ensures r.layer == *self, r.inner == inner { unimplemented!() }
+}
+impl LayeredService {
+    #[verifier::external_body] pub fn call(&mut self, req: Request<Bytes>) -> (r: RpcFuture) ensures r.layer == old(self).layer, r.inner == old(self).inner, r.req == req, *final(self) == *old(self) { unimplemented!() }
+}
+impl Peer { #[verifier::external_body] pub fn clone(&self) -> (r: Self) ensures r == *self { unimplemented!() } }
 // ---------- the per-connection accept loop (request_handler.rs InboundRequestHandler::start) ----------
 pub struct ActivePeers;
 // an error that the CONNECTION reported (quinn::ConnectionError): the only thing that may end the accept loop
@@ -141,6 +154,17 @@ def select_standin(e):
     repl = 'if select_nondet() { let %s = %s; %s } else { let %s = %s; %s }' % (p1, aw(f1), e1.strip(), ('_unused' if p2 == '_' else p2), aw(f2), e2.strip())
     e.text = t[:m.start()] + repl + t[c + 1:]
     e.log('X4', 'tokio::select! with 2 arms replaced by a nondeterministic choice between them')
+
+
+def service_fn_standin(e):
+    """X12: `tower::service_fn(move |request| { let peer = peer.clone(); async move { peer.do_rpc(request).await } }).boxed()` -- a closure returning an async
+    block, which Verus cannot take -- is replaced by the stand-in `DoRpcService { peer }` ONLY if it has exactly this shape (whitespace aside)"""
+    pat = re.compile(r'tower::service_fn\(\s*move\s*\|request\|\s*\{\s*let\s+peer\s*=\s*peer\.clone\(\);\s*async\s+move\s*\{\s*peer\.do_rpc\(request\)\.await\s*\}\s*\}\s*\)\s*\.boxed\(\)')
+    t2, k = pat.subn('DoRpcService { peer }', e.text)
+    if k != 1:
+        raise AnchorLost('%s: the innermost service is no longer literally `service_fn(|request| peer.do_rpc(request))`' % e.key)
+    e.text = t2
+    e.log('X12', 'service_fn closure of the exact shape |request| peer.do_rpc(request) replaced by the stand-in DoRpcService { peer }')
 
 
 def _select_arms(inner):
@@ -304,6 +328,16 @@ def build(C):
               spec='''
     ensures
         r is Ok ==> ext_peer(r->Ok_0.head.extensions) == Some(self.connection.peer), // @OBL Peer::do_rpc::attributes_connection_identity [C01] the PeerId a caller sees on a response is the authenticated identity of the connection; it is attached after decoding and nothing in the message can supply it
+''')
+    t += C.fn(PEER, 'impl Service<Request<Bytes>> for Peer :: fn call', 'Peer::call', ['C11', 'C01', 'C02'], ret='r',
+              sig_rewrites=[('Self::Future', 'RpcFuture'), ('mut request: Request<Bytes>', 'request0: Request<Bytes>')],
+              body_prefix='\n        broadcast use axiom_empty_ext;\n        let mut request = request0;\n',
+              rewrites=[dict(rule='X5', pattern='crate::Direction', repl='Direction', optional=True)], transforms=[service_fn_standin], spec='''
+    ensures
+        r.layer == old(self).outbound_request_layer, // @OBL Peer::call::through_the_network_outbound_layer [C11] an RPC made through a peer handle passes the outbound layer stack the handle was given by its network (the stack that starts with the timeout middleware armed with the configured default)
+        r.inner.peer.connection == old(self).connection && r.inner.peer.config == old(self).config, // @OBL Peer::call::innermost_is_do_rpc_on_this_connection [C02,C01] and ends at do_rpc on this peer's own connection
+        r.req.head.route == request0.head.route && r.req.head.headers == request0.head.headers && r.req.body == request0.body && r.req.head.version == request0.head.version, // @OBL Peer::call::request_unchanged [C02] the request handed on is the caller's request (route, headers, body)
+        ext_peer(r.req.head.extensions) == Some(old(self).connection.peer), // @OBL Peer::call::tags_request_with_connection_identity [C01] middleware on the outbound path sees the authenticated identity of the connection as the request's peer
 ''')
     t += '}\n'
     # ---- serving side: BiStreamRequestHandler -------------------------------------------------------------------
